@@ -553,7 +553,7 @@ func (c *control) dirJustify(colon, at bool, params []any) {
 	}
 	padCnt := mincol
 	if padCnt == 0 {
-		padCnt = int(c.scope.Get(slip.Symbol("*print-right-margin*")).(slip.Fixnum))
+		padCnt = slip.RightMarginValue(c.scope.Get(slip.Symbol("*print-right-margin*")), 0)
 	}
 	for _, c2 := range segments {
 		c2.process()
@@ -601,7 +601,7 @@ func (c *control) dirJustify(colon, at bool, params []any) {
 		out = append(out, bytes.Repeat(padchar, cnt)...)
 	}
 	if special != nil {
-		max := int(c.scope.Get(slip.Symbol("*print-right-margin*")).(slip.Fixnum))
+		max := slip.RightMarginValue(c.scope.Get(slip.Symbol("*print-right-margin*")), math.MaxInt)
 		if max < len(out) {
 			c.out = append(c.out, special.out...)
 		}
